@@ -35,6 +35,7 @@ type PoolCase struct {
 	Lean       bool   `json:"lean,omitempty"` // tasks only do plain (non-atomic) writes; no harness synchronisation
 	PingPong   int    `json:"ping_pong,omitempty"`  // > 0: this many tiny tasks, each submitted the moment the previous one signals its completion (the submitter meets a worker that is just going idle), with a swept delay of a few spin steps
 	OpenPools  int    `json:"open_pools,omitempty"` // this many other 16-worker pools are created, used once and kept open while the case runs
+	PreTasks   int `json:"pre_tasks,omitempty"` // this many trivial tasks are submitted and waited for before every round (shifts whatever per-submit bookkeeping the pool keeps)
 	NestedKids int `json:"nested_kids,omitempty"` // follow-up tasks per task (default 1); Tasks*NestedKids <= 2*workers: they fit the queue exactly
 	NestedSubmit bool `json:"nested_submit,omitempty"` // gated, Tasks <= workers: every task submits one follow-up task to its own pool (while the waiter is inside Wait) before it finishes
 }
@@ -145,6 +146,16 @@ func runPoolCase(cs *PoolCase) *PoolObs {
 		rounds = 1
 	}
 	for round := 0; round < rounds; round++ {
+		if cs.PreTasks > 0 {
+			var ran atomic.Int32
+			for k := 0; k < cs.PreTasks+round; k++ {
+				pool.Submit(func() { ran.Add(1) })
+			}
+			pool.Wait()
+			if int(ran.Load()) != cs.PreTasks+round {
+				o.NotOnce = append(o.NotOnce, fmt.Sprintf("round %d: %d of %d warm-up tasks had run when Wait returned", round, ran.Load(), cs.PreTasks+round))
+			}
+		}
 		pre := cs.Tasks // submitted before Wait
 		n := cs.Tasks + cs.LateTasks
 		kids := cs.NestedKids
@@ -1024,6 +1035,9 @@ func runC12(c *Cfg) {
 		for _, pre := range []int{1, w} {
 			pcs = append(pcs, &PoolCase{Family: "nested-submit-during-wait", Workers: w, Tasks: pre, Submitters: 1, Rounds: 2, Gated: true, Policy: []string{"first", "last", "random"}[(w+pre)%3], PSeed: uint64(w*7 + pre), NestedSubmit: true})
 		}
+	}
+	for k := 1; k <= 9; k++ { // the same after k earlier submissions (whatever per-submit bookkeeping the pool keeps is shifted by k)
+		pcs = append(pcs, &PoolCase{Family: "nested-submit-during-wait-shifted", Workers: 1 + k%3, Tasks: 1, Submitters: 1, Rounds: 3, Gated: true, Policy: "first", NestedSubmit: true, PreTasks: k})
 	}
 	for _, w := range []int{2, 9, 12, 16} { // two follow-ups per task: 2*workers queued, exactly what the queue holds
 		pcs = append(pcs, &PoolCase{Family: "nested-submit-filling-the-queue", Workers: w, Tasks: w, Submitters: 1, Rounds: 1, Gated: true, Policy: "first", NestedSubmit: true, NestedKids: 2})
